@@ -12,6 +12,9 @@
   * C11-04 (`rtosc_scan_arg_val(s)`): the last element of an array, or of a repeated array, is
     not the left neighbour `a` of a range `b ... c` behind the array        → `scanArrayElems`,
                                                                               `scanArgValsLoop`
+  * C11-06 (`rtosc_scan_arg_val`, array case): `args_before` of an element is the number of argument
+    values scanned so far in the array (`num_read`), not the element index: behind a range
+    `a ... b` (three values, one element) the next range finds `b`      → `scanArrayElems`
   * C11-05 (`delta_from_arg_vals`): for 'f' / 'd' the number of steps is the nearest integer
     (the manual: "an n must exist such that |b + n d - c| <= 0.001")        → `deltaFromArgVals`
   * float / double range arithmetic (`C11Float.lean`) instead of `Err.unmodelled`.
@@ -82,13 +85,13 @@ def canPrecedeRange (cells : List Cell) : Res Bool := do
     if hdl = 0 then (do let c ← deref (cells.drop 1); pure (c.type ≠ ArgVal.tyA)) else pure true
   | _ => pure true
 
-/-- the element loop of the array scanner (fix C11-04: `prev_ok ? i : 0`) -/
+/-- the element loop of the array scanner (fixes C11-04, C11-06: `prev_ok ? num_read : 0`) -/
 def scanArrayElems (se : ElemScanner) : Nat → Bytes → List Cell → Nat → Bool → List Cell → UInt8 →
     Res (Bytes × List Cell × UInt8)
   | 0, _, _, _, _, _, _ => .error .fuel
   | loopFuel + 1, s, prev, i, prevOk, acc, arrtype =>
     if hd s ≠ 0 ∧ hd s ≠ 93 then do
-      let (rd, cells) ← se s prev (if prevOk then i else 0) true
+      let (rd, cells) ← se s prev (if prevOk then acc.length else 0) true    -- fix C11-06: `num_read`, not `i`
       if rd = 0 then throw .hang
       let s1 ← advance s rd
       let ok' ← canPrecedeRange cells
